@@ -110,7 +110,7 @@ Definition chk15 (c : case15) : verdict :=
   | CHist i a ops =>
     let cfg := {| cfg_iss := i; cfg_aud := a |} in
     let '(tag, reason) := chk_ops cfg [] ops 0 (-1) in
-    (if Nat.leb (n_requests ops) 1 then tag else if has_failed_refresh ops then 30 else 31, reason)
+    (if Nat.leb (n_requests ops) 1 && negb (tag =? (-1)) then tag else if has_failed_refresh ops then 30 else 31, reason)
   | CRace detected => (50, if detected then 20 else 0)
   | CConc i a old new now ih obs =>
     let cfg := {| cfg_iss := i; cfg_aud := a |} in
